@@ -91,6 +91,13 @@ def run_case(case):
         # The going-back-on-edge penalty compares two projected positions with a strict '<': on GRID inputs they are
         # exactly equal, so any rounding (in either metric) flips a finite penalty.  That discontinuity of the model is not
         # a property of the metric; GRID inputs are therefore run with the first-order model only (see DESIGN.md, C15).
+        # slow sections: consecutive observations 2-6 m apart (0.05-0.15 units)
+        slow = []
+        for p_ in obs[:3]:
+            q_ = (p_[0] + 0.12 * UNIT, p_[1] - 0.07 * UNIT)
+            r_ = (p_[0] + 0.05 * UNIT, p_[1] + 0.04 * UNIT)
+            slow += [[p_, q_], [p_, r_, q_], [obs[3], p_, q_]]
+        traces = traces + slow
         cfgs = [c for c in CFGS if pos == "GENERIC" or not c["avoid"]]
         if case.get("backend") == "sqlite":
             cfgs = [c for c in cfgs if c["fam"] != "SN" and not c["avoid"]]
